@@ -76,8 +76,9 @@ def main(argv=None):
     specs = mod.gen_cases(tier, seed)
     if a.max_cases:
         specs = specs[:a.max_cases]
+    to = getattr(mod, 'TIMEOUT', 900)
     results = runner.run_cases(prop, specs, chunk=getattr(mod, 'CHUNK', {}).get(tier, 4),
-                               timeout=getattr(mod, 'TIMEOUT', 900))
+                               timeout=to.get(tier, 900) if isinstance(to, dict) else to)
 
     if a.dump:
         with open(a.dump, 'w') as f:
